@@ -17,7 +17,7 @@ EXPLANATION = (
     "character pointer is never advanced beyond the terminator it was just found on; R13.9 asserted input predicates - every call of a "
     "reader helper that asserts pred(param) on entry (LPFreadColName, LPFreadValue, ...) is unreachable when pred(arg) is false; R13.10 "
     "MPS fields - a field of the current MPS line is used as a string only where a null test of that field has been passed since "
-    "readLine(); R13.11 no assertion tests the character class of input text, and no section reader asserts a relation between the LP numbers it is filling in from the file (positive controls). NOT decided: memory safety in general (data-flow of "
+    "readLine(); R13.13 a scalar local filled by a stream read is initialised or the read is tested; R13.11 no assertion tests the character class of input text, and no section reader asserts a relation between the LP numbers it is filling in from the file (positive controls). NOT decided: memory safety in general (data-flow of "
     "uninitialised values, integer overflow in index arithmetic, leaks on exceptional paths): a fuzzer is the natural tool there.")
 
 C = M.CLS
@@ -141,6 +141,7 @@ def run(fb, rep, tier):
     null_fields(fb, rep, rf)
     input_asserts(fb, rep, rf)
     scan_loops(fb, rep, rf)
+    read_targets(fb, rep, rf)
 
 
 # ---------------------------------------------------------------------------------------------------
@@ -875,3 +876,50 @@ def scan_loops(fb, rep, rf):
                           'the loop advances over %s while (%s), which is %s when %s is the terminator: the scan runs past the end of the string' % (t, render(c)[:60], 'true' if v else 'not decided', t))
     if k < 30:
         raise AnalysisBroken('only %d character-scanning loops found in the reader code' % k)
+
+
+# ---------------------------------------------------------------------------------------------------
+def read_targets(fb, rep, rf):
+    """R13.13: a scalar local that receives a value from a stream read (in.get(c), in >> x, in.read(&x, ..)) keeps its old content when
+    the read fails (empty / truncated file).  If it has no initialiser, every later use must be governed by a test of that read (the call
+    is a condition, or the stream state is tested before the use) - otherwise the reader branches on an indeterminate value."""
+    rep.rule('R13.13', 'a scalar local filled by a stream read is initialised, or the read is tested before the local is used', floor=2)
+    k = 0
+    scope = list(rf) + [f for f in fb.funcs.values() if f.name.startswith('soplex::SPxLPBase<') and f.short in ('read', 'readFile') and f.nodes]
+    seen = set()
+    for f in scope:
+        if f.u in seen:
+            continue
+        seen.add(f.u)
+        for c in f.nodes:
+            if not (c.k == 'CXXMemberCallExpr' and c.short in ('get', 'read', 'getline') and c.obj() is not None and re.search(r'istream|ifstream|stringstream', c.obj().t or '')) \
+               and not (c.k == 'CXXOperatorCallExpr' and c.o == '>>' and c.args() and re.search(r'istream|ifstream|stringstream', c.args()[0].t or '')):
+                continue
+            args = c.args()[1:] if c.k == 'CXXOperatorCallExpr' else c.args()
+            for a in args[:1]:
+                a = strip(a)
+                if a.k == 'UnaryOperator' and a.o == '&' and a.c:
+                    a = strip(a.kids[0])
+                if a.k != 'DeclRefExpr' or a.dk != 'local':
+                    continue
+                decl = [n for n in f.nodes if n.k == 'VarDecl' and n.u == a.u]
+                if not decl or decl[0].t not in ('char', 'int', 'unsigned int', 'long', 'double', 'bool', 'unsigned char'):
+                    continue
+                k += 1
+                key = '%s|%s filled by %s' % (f.name.replace('soplex::', '')[:50], a.n, render(c)[:25])
+                wh = '%s:%d' % (f.file, c.l)
+                if decl[0].c:
+                    rep.ok('R13.13', key, wh, '%s has an initialiser' % a.n)
+                    continue
+                # the read itself is a condition (if / while / &&), or a stream test lies between the read and every use
+                p_ = c.parent
+                while p_ is not None and p_.k in ('ImplicitCastExpr', 'ParenExpr', 'CXXMemberCallExpr', 'UnaryOperator') and p_.k != 'CompoundStmt':
+                    if p_.k in ('IfStmt', 'WhileStmt'):
+                        break
+                    p_ = p_.parent
+                tested = p_ is not None and p_.k in ('IfStmt', 'WhileStmt', 'ForStmt', 'BinaryOperator', 'ConditionalOperator')
+                uses = [n for n in f.nodes if n.k == 'DeclRefExpr' and n.u == a.u and n.i > c.i and not any(x.i == c.i for x in f.ancestors(n))]
+                rep.check(tested or not uses, 'R13.13', key, wh, 'the read is tested before %s is used' % a.n,
+                          '%s has no initialiser and receives its value from %s, whose success is not tested: for an empty or truncated stream the following uses of %s (line %d) read an indeterminate value' % (a.n, render(c)[:30], a.n, uses[0].l if uses else 0))
+    if k < 2:
+        raise AnalysisBroken('R13.13: only %d scalar locals filled by stream reads found' % k)
